@@ -63,8 +63,8 @@ Qed.
    satisfy n3 <= 2 * a - 3 ... this is what the documented bounds rest on *)
 Lemma level_cost a n3 n2 k3 k2 :
   (k2 <= 1)%nat -> (n3 + 3 <= a + a)%nat -> (n3 <= a)%nat -> (n2 + 3 <= a)%nat ->
-  (n3 * k3 + n2 * k2 + 3 <= a * (S (2 * k3 + k2) - (k3 + k2)))%nat.
-Proof. intros. destruct k2 as [|[|k2]]; [nia|nia|lia]. Qed.
+  (n3 * k3 + n2 * k2 + 3 <= a * k3 + a)%nat.
+Proof. intros. destruct k2 as [|[|k2]]; [destruct k3; nia|nia|lia]. Qed.
 
 (* ---- all levels: add_sum_n_bits_easy, _add_sum_n_bits_aig --------------------------------------- *)
 (* gates <= a * n - 3 * m  for a = 7 (AIG cells) and a = 5 (XAIG cells) *)
